@@ -105,7 +105,7 @@ def run(ctx):
     J, tup = load()
     spec_trees = json.load(open(os.path.join(LEAN_DIR, "HmfVerif", "Gen", "spec_vars.json"))) if os.path.exists(os.path.join(LEAN_DIR, "HmfVerif", "Gen", "spec_vars.json")) else {}
     r = rng("c06")
-    reps = 6 if quick else 80
+    reps = 9 if quick else 80
     reqs, metas = [], []
     with warnings.catch_warnings():
         warnings.simplefilter("ignore")
